@@ -4,6 +4,7 @@
 package c08
 
 import (
+	"encoding/binary"
 	"fmt"
 	"strings"
 	"time"
@@ -168,6 +169,19 @@ func units(tier string) []runner.Unit {
 					return
 				}
 				kinds, kindNames := allMeta()
+				// stamps at the ends of the 32-bit minute counter, and the near misses of the current minute
+				nowMin := uint32((world.Epoch.UnixNano() + t) / 60e9)
+				for ki, km := range kinds {
+					for _, stamp := range []uint32{0, 1, 2, 0xffffffff, 0xfffffffe, 0x80000000, nowMin - 2, nowMin + 2, nowMin ^ 0x80000000, nowMin + 0x10000} {
+						cnt++
+						m2 := append([]byte(nil), km...)
+						binary.BigEndian.PutUint32(m2[2:], stamp)
+						if err := protocol.VerifUnmarshalMeta(m2); err == nil {
+							u.Violation("C08/stale-timestamp-accepted", fmt.Sprintf("%s stamped with minute %d (0x%08x) accepted by a receiver whose minute is %d", kindNames[ki], stamp, stamp, nowMin), "", "")
+							return
+						}
+					}
+				}
 				for _, sign := range []int64{-1, 1} {
 					for d := int64(120); d <= 600; d++ {
 						at(t + sign*d*1e9)
@@ -194,7 +208,7 @@ func units(tier string) []runner.Unit {
 			}
 			u.Eval(cnt)
 			u.DistinctN(cnt)
-			u.Sample("every |d| in [120 s,600 s] on a 1 s grid, both signs: stamps refused; |d| >= 240 s: keys refused")
+			u.Sample("every |d| in [120 s,600 s] on a 1 s grid, both signs: stamps refused; |d| >= 240 s: keys refused; stamps 0, 1, 2, 2^32-1, 2^32-2, 2^31, now-2, now+2, now xor 2^31, now+65536 minutes: refused")
 		}})
 	}
 	// histories of one long-lived per-user decryptor (what the server keeps per registered user):
